@@ -134,7 +134,7 @@ def field_pcmp(ftype, combo, tr, x, y):
     """one field, trait PartialOrd / Ord: 'L' 'E' 'G' 'N'"""
     s = selected(tr, combo)
     if s is None:
-        r = p_pcmp(x, y) if ftype == 'P' else _cmp(x, y)
+        r = p_pcmp(x, y) if ftype == 'P' else ('L' if x <= y else 'G') if ftype == 'W' else _cmp(x, y)
     elif s[0] == 'key':
         k = (lambda i: FK[i]) if ftype == 'F' else KEY[s[1]][1]
         r = _cmp(k(x), k(y))
@@ -211,10 +211,10 @@ def relevant_combo(traits, combo):
 
 
 # ---- items ---------------------------------------------------------------------------------
-def make_item(name, variants, is_enum, traits, mode, extra_derives=(), discrs=None, item_attrs=()):
+def make_item(name, variants, is_enum, traits, mode, extra_derives=(), discrs=None, item_attrs=(), bnd=None, targs=None):
     """variants: list of (named: bool, [(ftype, combo)]) ; returns request S-expression"""
     def fields_s(named, fl):
-        fs = [sx.field(sx.tarray(sx.tid('u8'), sx.clit('2')) if ft == 'A' else sx.tfn([sx.tid('u8')], sx.tid('u8')) if ft == 'F' else sx.tid('u8' if ft == 'u8' else 'P'), name=('f%d' % i) if named else None,
+        fs = [sx.field(sx.tarray(sx.tid('u8'), sx.clit('2')) if ft == 'A' else sx.tfn([sx.tid('u8')], sx.tid('u8')) if ft == 'F' else sx.tid('u8' if ft == 'u8' else 'W' if ft == 'W' else 'P'), name=('f%d' % i) if named else None,
                        attrs=combo_attrs(cb, ft)) for i, (ft, cb) in enumerate(fl)]
         if named:
             return sx.named(fs)
@@ -224,11 +224,12 @@ def make_item(name, variants, is_enum, traits, mode, extra_derives=(), discrs=No
                             for i, (nm, fl) in enumerate(variants)], attrs=list(item_attrs))
     else:
         it = sx.struct(name, fields_s(*variants[0]))
-    tl = [(t, None) for t in traits]
+    # bnd: the `bound(..)` shared by the list; targs: trait -> (bound items, dump) for `Trait(bound(..))`
+    tl = [(t, (targs or {}).get(t)) for t in traits]
     if mode == 'attr':
-        return sx.inv_attr(sx.dx(tl), it)
+        return sx.inv_attr(sx.dx(tl, bnd=bnd), it)
     kw = '(enum (' if is_enum else '(struct ('
-    return sx.inv_derive(kw + sx.a_derive_ex(sx.dx(tl)) + ' ' + it[len(kw):])
+    return sx.inv_derive(kw + sx.a_derive_ex(sx.dx(tl, bnd=bnd)) + ' ' + it[len(kw):])
 
 
 def values_of(variants, dom_u8, dom_p):
@@ -245,7 +246,7 @@ def rust_value(name, variants, is_enum, v):
     vi, t = v
     named, fl = variants[vi]
     def fv(ft, x):
-        return ('P(%d)' % x) if ft == 'P' else ('[%du8, 0]' % x) if ft == 'A' else ('(fn%d as fn(u8) -> u8)' % x) if ft == 'F' else ('%du8' % x)
+        return ('P(%d)' % x) if ft == 'P' else ('W(%d)' % x) if ft == 'W' else ('[%du8, 0]' % x) if ft == 'A' else ('(fn%d as fn(u8) -> u8)' % x) if ft == 'F' else ('%du8' % x)
     path = '%s::V%d' % (name, vi) if is_enum else name
     if named:
         return '%s { %s }' % (path, ', '.join('f%d: %s' % (i, fv(ft, x)) for i, ((ft, _), x) in enumerate(zip(fl, t))))
@@ -261,6 +262,11 @@ impl PartialEq for P { fn eq(&self, o: &P) -> bool { self.0 == o.0 && self.0 != 
 impl PartialOrd for P { fn partial_cmp(&self, o: &P) -> Option<Ordering> {
     if self.0 == 9 || o.0 == 9 { None } else { self.0.partial_cmp(&o.0) } } }
 impl Hash for P { fn hash<H: Hasher>(&self, s: &mut H) { s.write_u8(self.0) } }
+/// a field type whose order is NOT antisymmetric (`a.cmp(&a)` is Less): reversing a result and swapping the operands differ
+#[derive(Debug, Clone, Copy, PartialEq, Eq, Hash)]
+pub struct W(pub u8);
+impl Ord for W { fn cmp(&self, o: &W) -> Ordering { if self.0 <= o.0 { Ordering::Less } else { Ordering::Greater } } }
+impl PartialOrd for W { fn partial_cmp(&self, o: &W) -> Option<Ordering> { Some(self.cmp(o)) } }
 '''
 
 
